@@ -84,6 +84,9 @@ def do_triaxys(rec, rng, ws, xr, d, kind):
     nfiles = int(rng.integers(1, 5))
     paths, t = F.triaxys(rng, d, directional=directional, nfiles=nfiles)
     key = "%s|files=%d|nf=%d|nd=%s" % (kind, nfiles, len(t["freq"]), "-" if not directional else len(t["dir"]))
+    if t.get("vary_f0"):
+        key += "|bands-start-at-different-frequencies"
+        rec.note("triaxys_files_with_different_initial_frequency")
     arg = paths if nfiles > 1 or rng.random() < 0.5 else paths[0]
     out = reader(rec, "triaxys", key, lambda: ws.read_triaxys(arg))
     if out is None or not times_ok(rec, "triaxys", key, out, t["time"], "m"):
@@ -101,7 +104,7 @@ def do_triaxys(rec, rng, ws, xr, d, kind):
         got = out["efth"].transpose("time", "freq", "dir").values
     else:
         got = out["efth"].transpose("time", "freq").values
-    ok, worst = close(got, t["E"][o], 1e-12)
+    ok, worst = close(got, t["E"][o], 1e-9 if t.get("vary_f0") else 1e-12, atol=1e-12 * float(np.abs(t["E"]).max()) if t.get("vary_f0") else 0.0)
     (rec.ok("triaxys", key, sample={"files": len(paths), "first_row": got[0, 0].ravel()[:3] if directional else got[0, :3]}) if ok else
      rec.bad("triaxys", key, {"worst_over_tol": worst}, "densities-differ:triaxys"))
     if ok and directional and rng.random() < 0.4:
@@ -216,9 +219,32 @@ def do_datawell(rec, rng, ws, xr, d, kind):
 
 
 def do_obscape(rec, rng, ws, xr, d, kind):
-    paths, t = F.obscape(rng, d)
+    import os, shutil
+    via_dir = bool(rng.random() < 0.4)
+    sub = os.path.join(d, "obscape_dir")
+    if via_dir:
+        os.makedirs(sub, exist_ok=True)
+    paths, t = F.obscape(rng, sub if via_dir else d)
     key = "obscape|files=%d|nd=%d" % (len(paths), len(t["dir"]))
-    out = reader(rec, "obscape", key, lambda: ws.read_obscape(list(paths)))
+    if via_dir:
+        # the directory reader picks the files by the stamp in their names; the record times are the files' own
+        # "# Timestamp" lines - the names here carry a local-time stamp (hours off the UTC content)
+        from wavespectra.input.obscape import read_obscape_dir
+        shift = int(rng.choice([0, 2, -5, 10]))
+        if shift:
+            tmp_ = []
+            for k_, p_ in enumerate(list(paths)):      # two phases: a new name may be another file's old name
+                os.rename(p_, os.path.join(sub, "tmp%d.part" % k_))
+                tmp_.append(os.path.join(sub, "tmp%d.part" % k_))
+            for p_, tt in zip(tmp_, t["time"]):
+                s_ = str((tt + np.timedelta64(shift, "h")).astype("datetime64[s]"))
+                os.rename(p_, os.path.join(sub, "%s_%s_wavebuoy_spec2D.csv" % (s_[:10].replace("-", ""), s_[11:19].replace(":", ""))))
+        key += "|read_obscape_dir|name-stamp-offset=%dh" % shift
+        rec.note("obscape_directory_reader")
+        out = reader(rec, "obscape", key, lambda: read_obscape_dir(sub))
+        shutil.rmtree(sub, ignore_errors=True)
+    else:
+        out = reader(rec, "obscape", key, lambda: ws.read_obscape(list(paths)))
     if out is None or not times_ok(rec, "obscape", key, out, t["time"]):
         return
     fo, do_ = np.asarray(out["freq"].values, dtype="float64"), np.asarray(out["dir"].values, dtype="float64")
